@@ -62,11 +62,12 @@ def r16a(ck, prog, functions=None, rule="R16a"):
             for r in F.body.find("DeclRefExpr"):
                 if r.d["name"] == name and r.d.get("g"):
                     m = access_mode(r)
-                    if m in ("write", "rmw", "addr", "decay") or m.startswith("elem-w") or m.startswith("elem-rmw"):
+                    if m in ("write", "rmw", "addr", "decay") or m.startswith("elem-w") or m.startswith("elem-rmw") or \
+                            m.endswith("-decay") or m.endswith("-addr"):
                         writes.append((F, r, m))
         if const:
             # a const-qualified object: handing out its address (a cursor walking a constant table) cannot change it
-            writes = [w_ for w_ in writes if w_[2] not in ("addr", "decay")]
+            writes = [w_ for w_ in writes if w_[2] not in ("addr", "decay") and not w_[2].endswith("-decay") and not w_[2].endswith("-addr")]
         ck.inst(rule, loc + ":" + name, "global %s: %s, %d write site(s)" % (name, "const" if const else "mutable", len(writes)), prog.config)
         if const and not writes:
             continue
@@ -91,6 +92,50 @@ def r16a(ck, prog, functions=None, rule="R16a"):
             ck.violation(rule, "%s/%s/static-%s" % (rule, fname, name), loc,
                          "%s keeps a mutable function-local static %s: state survives from one library call to the next" % (fname, name), prog.config)
     return n
+
+
+def r16j(ck, prog):
+    """nothing is released twice: from a call that releases a local pointer (free / MFREE / *free* / fclose) no second release
+    of the same local is reachable unless the local is assigned in between (MFREE's `p = NULL`, a fresh allocation, the
+    hand-over idiom `m = NULL`) - a test `if(p)` in front of the second release does not help when p still holds the old
+    address"""
+    n = 0
+    for F in prog.lib_functions():
+        if F.cfg is None:
+            continue
+        rel = {}
+        for c in F.body.calls():
+            if not c.callee or not (("free" in c.callee.lower()) or c.callee == "fclose") or not c.args:
+                continue
+            a0 = c.args[0].strip(casts=True)
+            if a0.k == "DeclRefExpr" and a0.d.get("dk") == "Var" and not a0.d.get("g") and (a0.ty or "").endswith("*"):
+                rel.setdefault(a0.d["did"], []).append(c)
+        for did, sites_ in rel.items():
+            if len(sites_) < 2:
+                continue
+            assigns = [x for x in F.body.walk() if ((x.k == "BinaryOperator" and x.d["op"] == "=") and x.kids[0].strip().k == "DeclRefExpr" and
+                                                    x.kids[0].strip().d["did"] == did)]
+            # out-parameter acquisitions (&p handed to an allocator) also give p a new value
+            assigns += [x for x in F.body.walk() if x.k == "UnaryOperator" and x.d["op"] == "&" and x.kids[0].strip().k == "DeclRefExpr" and
+                        x.kids[0].strip().d["did"] == did]
+            ap = [F.cfg.position(x) for x in assigns]
+            ap = [p_ for p_ in ap if p_ is not None]
+            for r1 in sites_:
+                for r2 in sites_:
+                    if r1 is r2:
+                        continue
+                    p1, p2 = F.cfg.position(r1), F.cfg.position(r2)
+                    if p1 is None or p2 is None:
+                        continue
+                    n += 1
+                    if F.cfg.reaches(p1, p2, avoid=ap):
+                        ck.violation("R16j", "R16j/%s/%s" % (F.name, r1.args[0].strip(casts=True).text()), site(prog, r2, "second release"),
+                                     "%s releases %s at line %s and can reach this second release with %s still holding the old address "
+                                     "(no assignment in between): a double free on that path" % (
+                                         F.name, r1.args[0].strip(casts=True).text(), site(prog, r1).split(":")[1] if ":" in site(prog, r1) else "?",
+                                         r1.args[0].strip(casts=True).text()), prog.config)
+    ck.inst("R16j", "lib", "%d ordered pairs of releases of one local examined" % n, prog.config)
+    ck.floor("R16j", n, 4, "pairs of releases of the same local")
 
 
 def r16b(ck, prog):
@@ -491,6 +536,7 @@ def r16h(ck, prog, functions=None):
 
 def run(ck, progs):
     describe(ck)
+    ck.rule("R16j", "no local pointer is released twice on a path without being assigned in between")
     ck.rule("R16i", "writing an msa does not change it (= R06i): a second kalign_write_msa on the same object gives what a first one would")
     ck.rule("R16h", "errno is read only under a test of the result of the call that sets it")
     ck.rule("R16g", "an owning local pointer is not overwritten while it is known to hold a live object unless the old value was saved or released just before")
@@ -520,6 +566,7 @@ def run(ck, progs):
         n = ck.attempt(r16d, ck, prog)
         ck.floor("R16d", n, 12, "acquisitions in API-owned functions")
         ck.attempt(r16h, ck, prog)
+        ck.attempt(r16j, ck, prog)
         from . import c06 as _c06
         ck.borrow(_c06.r06i, prog, "R16i", ("R06i",))
         n = ck.attempt(r16g, ck, prog)
